@@ -236,3 +236,31 @@ def lemma_bcount_all(a: A[bool, 1], lo: int, hi: int):
     unfold(BCOUNT(a, lo, hi))
     if hi > lo:
         lemma_bcount_all(a, lo, hi - 1)
+
+
+@lemma(shared=True)
+def lemma_isum_split(a: A[int, 1], lo: int, mid: int, hi: int):
+    requires(lo <= mid, mid <= hi)
+    ensures(ISUM(a, lo, hi) == ISUM(a, lo, mid) + ISUM(a, mid, hi))
+    decreases(hi - mid)
+    unfold(ISUM(a, lo, hi), ISUM(a, mid, hi))
+    if hi > mid:
+        lemma_isum_split(a, lo, mid, hi - 1)
+
+
+@lemma(shared=True)
+def lemma_isum_peel_left(a: A[int, 1], lo: int, hi: int):
+    requires(lo < hi)
+    ensures(ISUM(a, lo, hi) == a[lo] + ISUM(a, lo + 1, hi))
+    lemma_isum_split(a, lo, lo + 1, hi)
+    unfold(ISUM(a, lo, lo + 1), ISUM(a, lo, lo))
+
+
+@lemma(shared=True)
+def lemma_isum_zero(a: A[int, 1], lo: int, hi: int):
+    requires(forall(lo, hi, lambda t: a[t] == 0))
+    ensures(ISUM(a, lo, hi) == 0)
+    decreases(hi - lo)
+    unfold(ISUM(a, lo, hi))
+    if hi > lo:
+        lemma_isum_zero(a, lo, hi - 1)
